@@ -9,6 +9,8 @@ Facts about `Registry.step` that `RegistryLemmas` does not state, all proved her
   invariant be lifted to the combined model although the root's `purge` clears away tokens that are `pre` in the
   Registry sense (`SInv.droppedNoPre` fails after a purge): the invariant is kept for the SHADOW state in which the
   `pre` stamps of the dropped tokens are erased (`shadow`), and every step of the real state is a step of the shadow.
+* `step_delivered`: `delivered` only grows at its head, and what a step delivers was pending or in a cell (used for
+  `ScopeLife.FinalFlushCov`: nothing delivered after the final flush is a barrier token).
 The classification of the effect of a step (`Fam`, seven shapes) and the frame facts derived from it, and the
 pc-kind lemmas (`step_pass_kind` / `step_obt_kind`), are in `ScopeLifeFam.lean`; the purge in `ScopeLifePurge.lean`.
 -/
@@ -162,6 +164,117 @@ theorem step_par {s s' : State} {e : Ev} (hs : step san s e = some s') : Par san
         refine par_same rfl fun d => ?_
         simp_all [step, setPc_withD, addReader_withD, delReader_withD, setScope_withD, deleteIfSame_withD, handOut_withD]
         try rfl
+
+/-! ## how `delivered` grows -/
+
+/-- what a thread at this pc holds pending is in `allPending` -/
+theorem mem_allPending_of_pcOf {s : State} {t : Nat} {tok : Token} (h : tok ∈ pendingOf (pcOf s t)) :
+    tok ∈ allPending s := by
+  rw [allPending_eq]
+  cases hlk : s.pcs.lookup t with
+  | none => simp [pcOf, hlk, pendingOf] at h
+  | some p =>
+    simp only [pcOf, hlk, Option.getD_some] at h
+    have hmem : (t, p) ∈ s.pcs := by
+      generalize s.pcs = l at hlk
+      induction l with
+      | nil => simp [List.lookup] at hlk
+      | cons a l ih =>
+        obtain ⟨k, v⟩ := a
+        by_cases hk : t = k
+        · subst hk
+          simp only [List.lookup, beq_self_eq_true, Option.some.injEq] at hlk
+          subst hlk; exact List.mem_cons_self ..
+        · have : (t == k) = false := by simp [hk]
+          simp only [List.lookup, this] at hlk
+          exact List.mem_cons_of_mem _ (ih hlk)
+    simp only [pend, List.mem_flatten, List.mem_map]
+    exact ⟨pendingOf p, ⟨(t, p), hmem, rfl⟩, h⟩
+
+/-- **`delivered` only grows at its head**, and what a step delivers was pending or in a cell -/
+theorem step_delivered {s s' : State} {e : Ev} (hs : step san s e = some s') :
+    ∃ nw, s'.delivered = nw ++ s.delivered ∧
+      ∀ tok ∈ nw, tok ∈ allPending s ∨ ∃ (sid : Nat) (x : ScopeS), s.scopes[sid]? = some x ∧ tok ∈ x.cell := by
+  have nil : ∀ {s' : State}, s'.delivered = s.delivered → ∃ nw, s'.delivered = nw ++ s.delivered ∧
+      ∀ tok ∈ nw, tok ∈ allPending s ∨ ∃ (sid : Nat) (x : ScopeS), s.scopes[sid]? = some x ∧ tok ∈ x.cell :=
+    fun h => ⟨[], by simpa using h, fun _ hm => by cases hm⟩
+  cases e with
+  | record sid =>
+    simp only [step] at hs
+    repeat' split at hs
+    all_goals first | cases hs | skip
+    all_goals exact nil rfl
+  | close sid =>
+    simp only [step] at hs
+    repeat' split at hs
+    all_goals first | cases hs | skip
+    all_goals exact nil rfl
+  | obtain t r =>
+    simp only [step] at hs
+    repeat' split at hs
+    all_goals first | cases hs | skip
+    all_goals exact nil rfl
+  | passBegin t =>
+    simp only [step] at hs
+    repeat' split at hs
+    all_goals first | cases hs | skip
+    all_goals exact nil rfl
+  | passEndHint t =>
+    simp only [step] at hs
+    repeat' split at hs
+    all_goals first | cases hs | skip
+    all_goals exact nil rfl
+  | step t c =>
+    cases hpc : pcOf s t with
+    | idle => simp [step, hpc] at hs
+    | passDeliver v k sid cl pd =>
+      simp only [step, hpc] at hs
+      cases hs
+      exact ⟨pd, rfl, fun tok hm => Or.inl (mem_allPending_of_pcOf (t := t) (by rw [hpc]; exact hm))⟩
+    | obtDeliver r sid pd =>
+      simp only [step, hpc] at hs
+      cases hs
+      exact ⟨pd, rfl, fun tok hm => Or.inl (mem_allPending_of_pcOf (t := t) (by rw [hpc]; exact hm))⟩
+    | passClear v k sid =>
+      simp only [step, hpc] at hs
+      split at hs
+      · cases hs
+      · cases hs; exact nil (by simp)
+    | obtClear r sid =>
+      simp only [step, hpc] at hs
+      split at hs
+      · cases hs
+      · cases hs; exact nil (by simp)
+    | obtWantLock r =>
+      by_cases hr : s.readers = []
+      · cases hl : lookup s (san r) with
+        | none =>
+          rw [step_obtWantLock_none hpc hr hl] at hs; cases hs
+          refine nil ?_
+          show (addAlias (createScope s (san r)) r s.scopes.length).delivered = _
+          rw [addAlias_delivered]; rfl
+        | some sid =>
+          cases hx : scopeOf s sid with
+          | none => rw [step_obtWantLock_noscope hpc hl hx] at hs; cases hs
+          | some x =>
+            rw [step_obtWantLock_some hpc hr hl hx] at hs
+            split at hs
+            · cases hs
+              refine nil ?_
+              show (addAlias s r sid).delivered = _
+              rw [addAlias_delivered]
+            · split at hs
+              · cases hs
+              · cases hs
+                refine ⟨x.cell, ?_, fun tok hm => Or.inr ⟨sid, x, hx, hm⟩⟩
+                show (addAlias (createScope (d4cS s r (san r) sid x) (san r)) r _).delivered = _
+                rw [addAlias_delivered, d4cS_eq hx]; rfl
+      · rw [step_obtWantLock_blocked hpc hr] at hs; cases hs
+    | _ =>
+      simp only [step, hpc] at hs
+      repeat' split at hs
+      all_goals first | cases hs | skip
+      all_goals exact nil rfl
 
 /-! ## the shadow state -/
 
